@@ -89,12 +89,25 @@ type AnaResult struct {
 	Reading string // which admissible reading matched (when several exist)
 }
 
+// anaKeyEq: equality of two partition key cells. A string spelling an integer
+// is that integer (comparison ladder); integers compare exactly (64 bits).
+// Floats are kept out of partition keys by the callers (integer n vs float n.0
+// in one bucket is an open pair, see C04).
+func anaKeyEq(a, b val.Val) bool {
+	ai, aok := AsInteger(a)
+	bi, bok := AsInteger(b)
+	if aok || bok {
+		return aok && bok && ai == bi
+	}
+	return a == b
+}
+
 func anaSame(a, b []val.Val) bool {
 	if len(a) != len(b) {
 		return false
 	}
 	for i := range a {
-		if a[i] != b[i] {
+		if !anaKeyEq(a[i], b[i]) {
 			return false
 		}
 	}
@@ -135,27 +148,60 @@ func anaCmpVal(a, b val.Val, it AnaOrder) int {
 		}
 		return -1
 	}
-	if a.K != b.K {
-		panic(fmt.Sprintf("reference model: mixed types in an order column: %s %s", a, b))
-	}
+	// comparison ladder: two integers (Integer values or strings spelling one)
+	// compare exactly as 64-bit integers; an integer and a float compare as
+	// float64; two other strings compare as text
 	c := 0
-	switch a.K {
-	case "I":
-		x, y := a.AsInt(), b.AsInt()
-		if x < y {
+	if a.K == "S" && b.K == "S" && plainText(a.S) && plainText(b.S) { // fast path
+		c = strings.Compare(a.S, b.S)
+		if it.Desc {
+			c = -c
+		}
+		return c
+	}
+	ai, aInt := AsInteger(a)
+	bi, bInt := AsInteger(b)
+	af, aNum := AsFloat(a)
+	bf, bNum := AsFloat(b)
+	switch {
+	case aInt && bInt:
+		if ai < bi {
 			c = -1
-		} else if x > y {
+		} else if ai > bi {
 			c = 1
 		}
-	case "S":
+	case aNum && bNum:
+		if math.IsNaN(af) || math.IsNaN(bf) {
+			panic("reference model: NaN in an order column")
+		}
+		if af < bf {
+			c = -1
+		} else if af > bf {
+			c = 1
+		}
+	case a.K == "S" && b.K == "S" && !aNum && !bNum:
 		c = strings.Compare(a.S, b.S)
 	default:
-		panic("reference model: unsupported order value " + a.String())
+		panic(fmt.Sprintf("reference model: mixed types in an order column: %s %s", a, b))
 	}
 	if it.Desc {
 		c = -c
 	}
 	return c
+}
+
+// plainText: the string cannot spell a number (no digit, not Inf / NaN).
+func plainText(s string) bool {
+	for i := 0; i < len(s); i++ {
+		if '0' <= s[i] && s[i] <= '9' {
+			return false
+		}
+	}
+	switch trimBlank(s) {
+	case "Inf", "+Inf", "-Inf", "NaN":
+		return false
+	}
+	return true
 }
 
 // AnaCmp compares the order keys of two rows.
